@@ -137,6 +137,19 @@ class C16(PropBase):
         stored = {c: [] for c in range(nctx)}
         steps = []
         tok = 0
+        if rng.random() < 0.25:
+            # motif: an alias found through its base (and possibly memoised), then inserted as a key of its own
+            b, w = rng.choice(bases), rng.choice(["newtype", "alias", "salias", "final", "nn", "classvar"])
+            via = rng.choice(["self", "self", "fref"])
+            mod = rng.choice(["vw0", "vw1"])
+            steps.append({"ctx": 0, "key": {"base": b, "w": via}, "mod": mod, "op": "ctx_set", "val": "tokA"})
+            steps.append({"ctx": 0, "key": {"base": b, "w": w}, "mod": mod, "op": rng.choice(["ctx_getitem", "ctx_get"]), "default": "dfltM"})
+            steps.append({"ctx": 0, "key": {"base": b, "w": w}, "mod": mod, "op": "ctx_set", "val": "tokB"})
+            steps.append({"ctx": 0, "key": {"base": b, "w": w}, "mod": mod, "op": "ctx_in"})
+            steps.append({"ctx": 0, "key": {"base": b, "w": w}, "mod": mod, "op": "ctx_getitem"})
+            stored[0] += [{"base": b, "w": via}, {"base": b, "w": w}]
+            tok = 2
+            n += 5
         while len(steps) < n:
             c = rng.randrange(nctx)
             r = rng.random()
